@@ -421,8 +421,8 @@ func c04Hunt(c *hx.Ctx, r *hx.RNG) {
 		}
 		X, Y, U, z := mkHunt(r, x), mkHunt(r, y), mkHunt(r, u), newZ()
 		name, expectNaN = "FMA", oracle.FMA(x, y, u, 0).NaN
-		if fmaProductOutOfRange(&opCase{op: "FMA", x: x, y: y, u: u}) {
-			kf = "fma_product_exponent_out_of_range"
+		if nan, _, ok := fmaKnownOutcome(&opCase{op: "FMA", x: x, y: y, u: u, p: 1}); ok && nan {
+			kf = "fma_product_exponent_out_of_range" // D15: the only thing this hunt can see of it is the spurious ErrNaN
 		}
 		f = func() { z.FMA(X, Y, U) }
 	case 8: // Sqrt
